@@ -122,6 +122,8 @@ func (f *tsFuture) Wait() (int64, int64, error) {
 		return 0, 0, f.ctx.Err()
 	case <-f.p.Net.CutCh(f.p.ID):
 		return 0, 0, ErrSimCut
+	case <-f.p.Net.Down():
+		return 0, 0, ErrSimCut
 	}
 }
 
@@ -206,6 +208,8 @@ func pdCall[T any](p *PD, ctx context.Context, kind string, fn func() (T, error)
 	case <-ctx.Done():
 		return zero, ctx.Err()
 	case <-p.Net.CutCh(p.ID):
+		return zero, ErrSimCut
+	case <-p.Net.Down():
 		return zero, ErrSimCut
 	}
 }
